@@ -346,6 +346,63 @@ func c11Scenario(id int, kind string, delay int64, param int, dir string) (c c11
 				sst.SetReadDeadline(time.Time{})
 			}
 		}
+	case "deadline-race":
+		// the deadline of one Read expires at about the moment its data arrives (timer firing while the
+		// reader is woken by the data); the NEXT Read, with a far deadline, must not see a stale timer tick
+		rounds := 250
+		r := newVrand(uint64(id) + 77)
+		d1 := time.Duration(param) * time.Microsecond
+		for i := 0; i < rounds && len(c.Oracle) == 0; i++ {
+			jitter := time.Duration(r.intn(120)-60) * time.Microsecond
+			t0 := time.Now()
+			sst.SetReadDeadline(t0.Add(d1))
+			go func() {
+				for time.Since(t0) < d1+jitter {
+				}
+				cst.Write(payload[:1])
+			}()
+			n1, e1 := sst.Read(buf)
+			if e1 != nil && e1 != ErrTimeout {
+				c.fail("deadline-race: first read failed with class %d", c11Class(e1))
+				break
+			}
+			if e1 == ErrTimeout || n1 == 0 {
+				// the byte comes a little later: take it
+				sst.SetReadDeadline(time.Now().Add(c11Bound))
+				if _, e := sst.Read(buf); e != nil {
+					// a stale tick may already strike here
+					if e == ErrTimeout {
+						c.Class = 1
+						c.fail("deadline-race: a Read with a %v deadline returned ErrTimeout at once: stale timer tick left behind by the previous Read (Stop + drain in readMore is not exact)", c11Bound)
+					} else {
+						c.fail("deadline-race: draining read failed with class %d", c11Class(e))
+					}
+					break
+				}
+			}
+			// the next Read: far deadline, data after 3 ms
+			far := 2 * time.Second
+			sst.SetReadDeadline(time.Now().Add(far))
+			t1 := time.Now()
+			go func() {
+				time.Sleep(3 * time.Millisecond)
+				cst.Write(payload[:1])
+			}()
+			_, e2 := sst.Read(buf)
+			el := time.Since(t1)
+			if e2 == ErrTimeout && el < far-5*time.Millisecond {
+				c.Class, c.CallUs, c.MinUs = 1, el.Microseconds(), far.Microseconds()
+				c.fail("deadline-race: a Read with a %v deadline returned ErrTimeout after %v: stale timer tick left behind by the previous Read (Stop + drain in readMore is not exact)", far, el)
+				// take the byte of this round
+				sst.SetReadDeadline(time.Now().Add(c11Bound))
+				sst.Read(buf)
+				break
+			} else if e2 != nil {
+				c.fail("deadline-race: second read failed with class %d", c11Class(e2))
+				break
+			}
+		}
+		sst.SetReadDeadline(time.Time{})
 	case "deadline": // nothing arrives: ErrTimeout, not before the deadline
 		d := time.Duration(param) * time.Millisecond
 		c11Sleep(delay)
@@ -1057,6 +1114,8 @@ func TestVerif_C11(t *testing.T) {
 			}
 		}
 		jobs = append(jobs, job{id, "data-race", 0, r.pick([]int{1, 300, 2000})})
+		id++
+		jobs = append(jobs, job{id, "deadline-race", 0, r.pick([]int{300, 1000, 2000})})
 		id++
 	}
 	ch := make(chan job)
